@@ -236,7 +236,7 @@ func summariseWrappers(p *core.Prog) []*wrapperSummary {
 		incs, incsGuarded := 0, 0
 		core.EachInstr(fn, func(i ssa.Instruction) {
 			cl, ok := i.(*ssa.Call)
-			if !ok || core.CalleeObj(cl) == nil || core.CalleeObj(cl).Name() != "Inc" || core.GuardedBy(nilIf, nonNilOnTrue, cl) {
+			if !ok || !requestsColumn(cl, 0) || core.GuardedBy(nilIf, nonNilOnTrue, cl) {
 				return
 			}
 			incs++
@@ -317,4 +317,24 @@ func pathCounts(fn *ssa.Function, from *ssa.BasicBlock, isEvent func(ssa.Instruc
 		return 0, 0
 	}
 	return mn, mx
+}
+
+// requestsColumn: the call is the schema-update request of an optional column (`Inc` on the update
+// request), or a call of a builder-package helper that makes it (the request factored out of the
+// wrappers, e.g. into a method of an embedded struct).
+func requestsColumn(cl ssa.CallInstruction, depth int) bool {
+	if o := core.CalleeObj(cl); o != nil && o.Name() == "Inc" {
+		return true
+	}
+	h := cl.Common().StaticCallee()
+	if h == nil || len(h.Blocks) == 0 || depth > 2 || core.FnPkgPath(h) != pkgBuilder {
+		return false
+	}
+	found := false
+	core.EachCall(h, func(ci ssa.CallInstruction) {
+		if !found && requestsColumn(ci, depth+1) {
+			found = true
+		}
+	})
+	return found
 }
